@@ -52,7 +52,7 @@ theorem fyields_step {p : GP} {neg : Bool} {g g' : G} {F : Nat} {t t' : Tape} {v
 
 /-- The zip of the three member generators of `random_anys()`, each in some phase. -/
 def anysZip (ph j fph : Nat) : G :=
-  .zipCons (.ints none none ph j) (.zipCons .strings (.zipCons (.floats cLo cHi fph) .zipNil))
+  .zipCons (.ints none none ph j) (.zipCons .strings (.zipCons (.floats (.fin cLo) (.fin cHi) fph) .zipNil))
 
 def anysSt (ph j fph : Nat) (buf : List GVal) : G := .flat (anysZip ph j fph) buf
 
@@ -65,6 +65,9 @@ def isAnyV : GVal → Prop
 /-- A state of `random_anys()`: phases of the members and the rest of the current round. -/
 def AnysSt (s : G) : Prop :=
   ∃ ph j fph buf, s = anysSt ph j fph buf ∧ (∀ x ∈ buf, isAnyV x) ∧ buf.length ≤ 2
+
+theorem cLo_lt_cHi : XF.lt (.fin cLo) (.fin cHi) = true := by
+  have := cLo_neg; have := cHi_pos; simp [XF.lt_fin]; omega
 
 theorem anysSt_init : AnysSt anys := ⟨0, 0, 0, [], rfl, by simp, by simp⟩
 
@@ -86,13 +89,13 @@ theorem anys_round (ph j fph k : Nat) (t : Tape) :
     have := pow10_pos ph; omega
   match fph with
   | 0 =>
-    simp only [anysSt, anysZip, pull, emptyRange, center, windowLow, windowHigh, Bool.false_eq_true, if_false, hw, if_true]
+    simp only [anysSt, anysZip, pull, emptyRange, center, windowLow, windowHigh, Bool.false_eq_true, if_false, hw, if_true, cLo_lt_cHi, XF.val]
     split <;> exact ⟨_, _, _, _, _, rfl, fun _ => rfl⟩
   | 1 =>
-    simp only [anysSt, anysZip, pull, emptyRange, center, windowLow, windowHigh, Bool.false_eq_true, if_false, hw, if_true]
+    simp only [anysSt, anysZip, pull, emptyRange, center, windowLow, windowHigh, Bool.false_eq_true, if_false, hw, if_true, cLo_lt_cHi, XF.val]
     split <;> exact ⟨_, _, _, _, _, rfl, fun h => absurd h (by decide)⟩
   | n + 2 =>
-    simp only [anysSt, anysZip, pull, emptyRange, center, windowLow, windowHigh, Bool.false_eq_true, if_false, hw, if_true]
+    simp only [anysSt, anysZip, pull, emptyRange, center, windowLow, windowHigh, Bool.false_eq_true, if_false, hw, if_true, cLo_lt_cHi, XF.val]
     split <;> exact ⟨_, _, _, _, _, rfl, fun h => absurd h (by omega)⟩
 
 theorem anys_pop (ph j fph k : Nat) (b : GVal) (bs : List GVal) (t : Tape) :
